@@ -1,4 +1,5 @@
 import Heph.Proofs.ClosedSound
+import Heph.Proofs.ClosedSites
 import Heph.Proofs.ClosedPool
 import Heph.Proofs.ClosedAssignable
 import Heph.Generated.Keywords
@@ -52,6 +53,26 @@ theorem closedCheck_error (p : Program) (kw : List String) (path why : String) :
 theorem member_lookup_in_hierarchy (tops : List Node) (t : Ty) (nm : String) (cm : Node × TMap) :
     tyClassName t = some nm → cm ∈ hierOfType tops (some t) → SuperOf tops nm cm.1 :=
   hierOfType_superOf tops t nm cm
+
+/-- **the quantifier of C05 is honoured**: `Closed` skips no name use.  Every variable reference, call, function
+    reference, field access, object creation, assignment, superclass instantiation and declared identifier occurring
+    ANYWHERE in a declaration of the program (`Occurs`: through lambdas, nested functions, both branches of
+    conditionals, default values, super-constructor arguments …) has a site of `programSites`, and in a closed
+    program the use resolves in the environment of that site -/
+theorem closed_covers_every_use (p : Program) (kw : List String) (h : Closed p kw) {d m : Node} (hd : d ∈ p.decls)
+    (hm : Occurs m d) {u : Use} (hu : nodeUse m = some u) :
+    ∃ s ∈ programSites p, s.use = u ∧ Resolves kw s.env u := by
+  obtain ⟨s, hs, hsu⟩ := programSites_cover p hd hm hu
+  exact ⟨s, hs, hsu, hsu ▸ h s hs⟩
+
+/-- the variable `v` inside the lambda inside the block of `f` occurs in `f` -/
+example : Occurs (.variable "v")
+    (.funcDecl "f" [] none none (some (.block [.varDecl "l" (.lambda "l" [] none (.variable "v") none) true none none] true))
+      false false [] 1) :=
+  .step (c := .block [.varDecl "l" (.lambda "l" [] none (.variable "v") none) true none none] true) (by simp [children])
+    (.step (c := .varDecl "l" (.lambda "l" [] none (.variable "v") none) true none none) (by simp [children])
+      (.step (c := .lambda "l" [] none (.variable "v") none) (by simp [children])
+        (.step (c := .variable "v") (by simp [children]) (.refl _))))
 
 /-- a closed two-declaration program, and the same program with the uses the property forbids -/
 def progOk : Program :=
